@@ -26,6 +26,16 @@ func init() {
 	}
 	subGens["msg:C05"] = genMsgAlg
 	subGens["msg:C06"] = genMsgNonce
+	// C08: whatever encoding a message arrived in, what the library emits for it is the deterministic one
+	subGens["msg:C08"] = func(r *rand.Rand, n int) []string {
+		var out []string
+		for _, l := range genMsgForeign(r, n/20+60) {
+			if strings.HasPrefix(l, "msg.reencode ") {
+				out = append(out, l)
+			}
+		}
+		return out
+	}
 	subGens["msg:C09"] = func(r *rand.Rand, n int) []string {
 		return append(genMsg(r, n, "reencode"), genMsgForeign(r, n/2)...)
 	}
@@ -256,6 +266,7 @@ type msgArgs struct {
 	fields     [][]string // payload | prot | unprot | key… (produce)   or   keys… (consume)
 	data       []byte     // consume / reencode
 	isRandom   bool       // set by produce when the result depends on randomness
+	warm       bool       // msg.produce2: the message object has been through one produce with nil headers before
 }
 
 func keysOf(fields [][]string) []key.Key {
@@ -293,6 +304,12 @@ func produceT[T any](c payloadCodec[T], a *msgArgs) string {
 		}
 		rs := &recSigner{Signer: s}
 		m := &cose.Sign1Message[T]{Protected: prot, Unprotected: unprot, Payload: payload}
+		if a.warm {
+			m.Protected, m.Unprotected = nil, nil
+			m.WithSign(rs, []byte("warm-up"))
+			rs.seen = nil
+			m.Protected, m.Unprotected = prot, unprot
+		}
 		out, err = m.SignAndEncode(rs, a.ext)
 		accessors = func() bool { return bytes.Equal(m.Bytesify(), out) && authAgrees(m.Signature()) }
 		a.isRandom = isEcdsaKey(ks[0])
@@ -314,6 +331,14 @@ func produceT[T any](c payloadCodec[T], a *msgArgs) string {
 			a.isRandom = a.isRandom || isEcdsaKey(k)
 		}
 		m := &cose.SignMessage[T]{Protected: prot, Unprotected: unprot, Payload: payload}
+		if a.warm {
+			m.Protected, m.Unprotected = nil, nil
+			m.WithSign(ss, []byte("warm-up"))
+			for _, r := range recs {
+				r.seen = nil
+			}
+			m.Protected, m.Unprotected = prot, unprot
+		}
 		out, err = m.SignAndEncode(ss, a.ext)
 		accessors = func() bool { return bytes.Equal(m.Bytesify(), out) && len(m.Signatures()) == len(ks) }
 		var all [][]byte
@@ -329,6 +354,12 @@ func produceT[T any](c payloadCodec[T], a *msgArgs) string {
 		rm := &recMacer{MACer: mc}
 		if a.kind == "mac0" {
 			m := &cose.Mac0Message[T]{Protected: prot, Unprotected: unprot, Payload: payload}
+			if a.warm {
+				m.Protected, m.Unprotected = nil, nil
+				m.Compute(rm, []byte("warm-up"))
+				rm.seen = nil
+				m.Protected, m.Unprotected = prot, unprot
+			}
 			out, err = m.ComputeAndEncode(rm, a.ext)
 			accessors = func() bool { return bytes.Equal(m.Bytesify(), out) && authAgrees(m.Tag()) }
 			if err == nil {
@@ -340,6 +371,12 @@ func produceT[T any](c payloadCodec[T], a *msgArgs) string {
 				if e := m.AddRecipient(rc); e != nil {
 					return "err recipient"
 				}
+			}
+			if a.warm {
+				m.Protected, m.Unprotected = nil, nil
+				m.Compute(rm, []byte("warm-up"))
+				rm.seen = nil
+				m.Protected, m.Unprotected = prot, unprot
 			}
 			out, err = m.ComputeAndEncode(rm, a.ext)
 			accessors = func() bool {
@@ -364,6 +401,12 @@ func produceT[T any](c payloadCodec[T], a *msgArgs) string {
 		}
 		if a.kind == "encrypt0" {
 			m := &cose.Encrypt0Message[T]{Protected: prot, Unprotected: unprot, Payload: payload}
+			if a.warm { // a first encryption for which the library chose the nonce
+				m.Protected, m.Unprotected = nil, nil
+				m.Encrypt(re, []byte("warm-up"))
+				re.aads, re.nonces = nil, nil
+				m.Protected, m.Unprotected = prot, unprot
+			}
 			out, err = m.EncryptAndEncode(re, a.ext)
 			accessors = func() bool { return bytes.Equal(m.Bytesify(), out) }
 			up = m.Unprotected
@@ -373,6 +416,12 @@ func produceT[T any](c payloadCodec[T], a *msgArgs) string {
 				if e := m.AddRecipient(rc); e != nil {
 					return "err recipient"
 				}
+			}
+			if a.warm {
+				m.Protected, m.Unprotected = nil, nil
+				m.Encrypt(re, []byte("warm-up"))
+				re.aads, re.nonces = nil, nil
+				m.Protected, m.Unprotected = prot, unprot
 			}
 			out, err = m.EncryptAndEncode(re, a.ext)
 			accessors = func() bool {
@@ -636,6 +685,7 @@ func dispatchMode(a *msgArgs, produce bool) string {
 }
 
 // msg.produce <kind> <mode> <ext> <recips> | <payload> | <prot> | <unprot> | <key> [| <key>…]
+// msg.produce2 …  the same arguments; the message object went through one produce with nil headers before
 // msg.consume <kind> <mode> <ext> <msg> | <key> [| <key>…]
 // msg.reencode <kind> <msg>
 // msg.untag <msg>
@@ -645,6 +695,11 @@ func execMsg(op string, a []string) string {
 		f := splitAll(a)
 		h := f[0]
 		args := &msgArgs{kind: h[0], mode: h[1], ext: unhxOpt(h[2]), recips: h[3], fields: f[1:]}
+		return dispatchMode(args, true)
+	case "msg.produce2": // the same, on a message object that has been produced once before with nil headers (history freedom)
+		f := splitAll(a)
+		h := f[0]
+		args := &msgArgs{kind: h[0], mode: h[1], ext: unhxOpt(h[2]), recips: h[3], fields: f[1:], warm: true}
 		return dispatchMode(args, true)
 	case "msg.consume":
 		f := splitAll(a)
